@@ -18,6 +18,15 @@ Tie to the code on every run:
 Schedules: ALL single-preemption schedules (thread X parked before its k-th library call for every k, the
 others run to completion, X resumes) for every ordered choice of X; 2-/3-preemption schedules enumerated at the
 switch points adjacent to shared-state accesses ("guided") and sampled uniformly; 3-thread schedules.
+Document sets: mixed sets (different palettes and shapes) and SAME-FEATURE sets (`gen_feature_set`): both / all three
+documents use the same feature — page_by heading rows, subline_by headings, group_by, multi-section, figures, each with
+column headers, footnote / source (as table or not), title of their own formats — on one skeleton (same column names,
+grouping column at the same index, same first group value, same component texts) with every resolved setting drawn
+from pools that are disjoint between the documents, so that state shared between threads under a common key shows in
+the bytes.  For every same-feature pair the quick tier enumerates all single-preemption schedules that park document 0.
+Cell classes: every `contextvars.ContextVar` of the package is classified on every run (fresh interpreter): a mutable
+default object that an encode on another thread changes in place is a process-wide cell (`CtxMode.Global`), not the
+per-thread cell the theorems are about.
 """
 from __future__ import annotations
 
@@ -37,14 +46,19 @@ from .. import common, docgen
 from ..common import sub_rng
 
 RULE = ("schedules of 2 or 3 real threads encoding documents with different palettes (one shared colour whose "
-        "table position differs per document) and shapes (plain / page_by / subline_by / multi-section / figure); "
-        "non-trivial = the schedule is *discriminating*: replayed in the model with one process-wide colour cell "
-        "(the pre-repair semantics) at least one thread would obtain a wrong colour index; distinct by "
+        "table position differs per document) and shapes (plain / page_by / subline_by / multi-section / figure), "
+        "and same-feature sets (both / all documents use page_by heading rows, subline_by, group_by, multi-section or "
+        "figures on one skeleton — same column names, grouping column index, first group value, component texts — "
+        "with formats, alignments, fonts, sizes, colours, borders, heights, figure sizes from pools disjoint between "
+        "the documents); non-trivial = the schedule is *discriminating*: replayed in the model with one process-wide "
+        "colour cell (the pre-repair semantics) at least one thread would obtain a wrong colour index; distinct by "
         "(document set, schedule)")
 TRUSTED = [
     "Lean 4.33 kernel; axioms ⊆ {propext, Classical.choice, Quot.sound} (audited per theorem on every run)",
     "Lean compiler for the driver executable (compiled evaluation agrees with kernel reduction)",
-    "harness/sched.py: token-passing scheduler on sys.settrace 'call' events; wrappers that log the shared "
+    "harness/sched.py: token-passing scheduler on the 'call' events of sys.settrace, delivered through "
+    "sys.monitoring (PY_START/PY_RESUME/PY_THROW of code in the rtflite package; both observers are run on every "
+    "baseline document on every run and must agree, else sys.settrace is used); wrappers that log the shared "
     "accesses (a wrong log shows up as model disagreement or as a byte difference, i.e. fails safe)",
     "CPython: a thread parked in a trace function executes nothing; str == on returned documents",
 ]
@@ -53,7 +67,9 @@ ASSUME = [
     "single bytecode-level shared access is outside the model (each access is one dict/ContextVar operation, "
     "atomic under the GIL)",
     "free-threaded (no-GIL) CPython and data races inside C extensions (polars, Pillow) are outside the model",
-    "contextvars: a new threading.Thread starts with an empty context (default None) — probed on every run",
+    "contextvars: a new threading.Thread starts with an empty context (default None) — probed on every run; every "
+    "ContextVar of the package is bound with .set() per encode and has an immutable default (a mutable default object "
+    "mutated in place is one cell per process) — classified on every run",
     "documents are not shared between threads (each thread encodes its own RTFDocument)",
 ]
 MANIFEST = dict(
@@ -63,10 +79,16 @@ MANIFEST = dict(
          "after the same number of own steps (frame lemma + simulation + induction on the schedule), hence its "
          "outputs are always a prefix of, and on completion equal to, its solo outputs; with one process-wide cell "
          "(the code before 981b773) the statement is refuted by a 2-thread/1-preemption witness. Tied to the code "
-         "on every run by a deterministic scheduler for real threads (sys.settrace; all single-preemption "
-         "schedules of a document pair exhaustively, guided and sampled 2-/3-preemption and 3-thread schedules): "
+         "on every run by a deterministic scheduler for real threads (call events of sys.settrace / "
+         "sys.monitoring; all single-preemption schedules of a document pair exhaustively, guided and sampled "
+         "2-/3-preemption and 3-thread schedules; mixed document sets and same-feature sets — page_by heading rows, "
+         "subline_by, group_by, multi-section, figures with different settings on one skeleton, one document of each "
+         "pair parked at every library call boundary): "
          "byte-equality of every thread's document with its fresh-process solo document, Lean-evaluated "
-         "notInterfered on the logged lookups, and replay of the logged schedule in the model.",
+         "notInterfered on the logged lookups, and replay of the logged schedule in the model. A process-wide memo "
+         "that is reset per use (e.g. a ContextVar whose mutable default object is mutated in place) is the Global "
+         "cell of the model: exact sequentially (C15_global_sequential_reset), refuted under one preemption "
+         "(C15_shared_default_memo_interferes); every ContextVar of the package is classified on every run.",
     note="PARTIAL with respect to the runtime: switch points are library call boundaries (≈2 300 per small "
          "encode); preemption inside one bytecode-level shared access, free-threaded CPython and races inside C "
          "extensions (polars, Pillow) are outside the model and the scheduler. The strategy registry is a shared "
@@ -248,6 +270,199 @@ def gen_docset(seed, k, kinds):
     return [gen_doc(rng, kind, pal, "ABC"[i]) for i, (kind, pal) in enumerate(zip(kinds, pals))]
 
 
+# ------------------------------------------------------------------ same-feature document sets
+#
+# A memo / cache / "current …" variable that is shared between threads shows only when both encodes in flight go
+# through it under the SAME key with DIFFERENT resolved values.  The sets below are built for that: the documents of a
+# set all exercise one feature (page_by heading rows, subline_by headings, group_by, multi-section, figures) on the same
+# skeleton — same column names, the grouping column at the same column index, the same first group value, the same
+# header / footnote / source texts — and every per-document setting that an encode resolves is drawn from value pools
+# that are disjoint between the documents of the set (`_SIDE`): whatever one encode takes over from another is visible
+# in the returned string.
+
+FEATURES = ("pageby", "subline", "groupby", "multi", "figure")
+
+_SIDE = dict(
+    text_format=(["b", "bi", "u"], ["i", "s", "iu"], ["", "bu", "is"]),
+    text_justification=(["l", "j"], ["r", "d"], ["c"]),
+    text_font_size=([8, 10], [11, 12], [7, 9]),
+    text_font=([1, 4], [6, 9], [7, 8]),
+    text_indent_first=([0, 120], [240, 360], [60, 180]),
+    text_indent_left=([0, 100], [200, 300], [50, 150]),
+    text_indent_right=([0, 90], [180, 270], [45, 135]),
+    text_space_before=([15, 20], [30, 40], [5, 10]),
+    text_space_after=([15, 25], [35, 45], [5, 12]),
+    border=(["single", "double"], ["dotted", "dashed"], ["thick", "triple"]),
+    border_width=([15, 20], [30, 40], [5, 10]),
+    cell_height=([0.15, 0.2], [0.25, 0.3], [0.1, 0.12]),
+    cell_justification=(["l"], ["r"], ["c"]),
+    cell_vertical_justification=(["top"], ["center"], ["bottom"]),
+    fig_width=([1.5, 2.0], [2.5, 3.0], [1.0, 1.25]),
+    fig_height=([1.0, 1.5], [2.0, 2.25], [0.5, 0.75]),
+    fig_align=(["left"], ["right"], ["center"]),
+)
+
+
+def _styled(rng, side, nc, pal, what="body"):
+    """attributes of a table-like component (body / column header / footnote / source) of the document on `side`:
+    one value per column (`[[v0, v1, …]]`, broadcast over the rows), every value from the side's own pool; colours:
+    column 0 carries the colour the palettes share (at a different table position per document), the rest own ones"""
+    x, own = pal["common"], pal["own"]
+
+    def vec(key):
+        return [[rng.choice(_SIDE[key][side]) for _ in range(nc)]]
+
+    a = dict(text_format=vec("text_format"), text_justification=vec("text_justification"),
+             text_font_size=vec("text_font_size"), text_font=vec("text_font"),
+             text_color=[[x] + [rng.choice(own) for _ in range(nc - 1)]],
+             text_background_color=[[rng.choice(own + [""]) for _ in range(nc)]])
+    for k in ("text_indent_first", "text_indent_left", "text_indent_right", "text_space_before", "text_space_after",
+              "border_width", "cell_height", "cell_justification", "cell_vertical_justification"):
+        if rng.random() < 0.7:
+            a[k] = vec(k)
+    for k in ("border_left", "border_right", "border_top", "border_bottom"):
+        if rng.random() < 0.7:
+            a[k] = [[rng.choice(_SIDE["border"][side]) for _ in range(nc)]]
+    if rng.random() < 0.5:
+        a["border_color_" + rng.choice(["left", "right", "top", "bottom"])] = [[rng.choice([x] + own) for _ in range(nc)]]
+    if what == "body":
+        a["text_hyphenation"] = [[(side + j) % 2 == 0 for j in range(nc)]]
+        a["text_convert"] = [[(side + j) % 2 == 1 for j in range(nc)]]
+    return a
+
+
+def _line(rng, side, pal, text, table=None):
+    """title / page header / footnote / source of the document on `side`; `table` = as_table for footnote and source"""
+    x, own = pal["common"], pal["own"]
+    d = dict(text=text, text_color=rng.choice([x] + own), text_font_size=rng.choice(_SIDE["text_font_size"][side]),
+             text_format=rng.choice(_SIDE["text_format"][side]),
+             text_justification=rng.choice(_SIDE["text_justification"][side]),
+             text_font=rng.choice(_SIDE["text_font"][side]))
+    if table is not None:
+        d["as_table"] = table
+        if table:
+            d["border_top"] = [[rng.choice(_SIDE["border"][side])]]
+            d["border_left"] = [[rng.choice(_SIDE["border"][side])]]
+            d["text_background_color"] = rng.choice(own)
+            d["cell_height"] = [[rng.choice(_SIDE["cell_height"][side])]]
+    return d
+
+
+def gen_feature_set(seed, k, feature, n=2, nc=2):
+    """n documents that all use `feature`, on one skeleton (nc data columns + the grouping column), with pairwise
+    different settings (see above).  nc = 1 gives the small documents of the quick tier (2–3 rows, two groups, fewer
+    optional components: the cost of enumerating every call boundary grows with the square of the encode's length)"""
+    rng = sub_rng(seed, "c15feat", k)
+    pals = gen_palettes(rng, n, color_names())
+    sides = list(range(3))
+    rng.shuffle(sides)
+    sides = sides[:n]
+    # ---- the skeleton: what the documents have in common (the likely keys of a memo)
+    kpos = rng.randrange(nc + 1)                      # index of the grouping column, the same in every document
+    names = [f"c{j}" for j in range(nc)]
+    names.insert(kpos, "grp")
+    g0 = "G0"                                        # first group value, the same in every document
+    htext = [f"H{j}" for j in range(nc + 1)]
+    mode = rng.choice(["samepage", "first_row"])      # how page_by headings become spanning rows
+    pb_header = rng.random() < 0.5
+    title, note, src = "Title", "note {^a} x_1", "src"
+    note_table = rng.random() < 0.6
+    src_table = rng.random() < 0.6
+    # optional components are decided per set (all documents of the set have them, each with its own settings)
+    small = nc == 1
+    with_title = rng.random() < (1.0 if feature == "figure" else 0.3 if small else 0.7)
+    with_src = rng.random() < (1.0 if feature == "figure" else 0.2 if small else 0.4)
+    with_hdr = rng.random() < (0.1 if small else 0.2)
+    specs = []
+    for i, (side, pal) in enumerate(zip(sides, pals)):
+        tag = "ABC"[i]
+        x, own = pal["common"], pal["own"]
+
+        def keyed_frame(nr, ngroups, all_cols=True):
+            # group values: G0 first (shared), then values of the document's own
+            per = [1] * ngroups
+            for _ in range(nr - ngroups):
+                per[rng.randrange(ngroups)] += 1
+            keys = []
+            for g, cnt in enumerate(per):
+                keys += [g0 if g == 0 else f"{tag}G{g}"] * cnt
+            rows = []
+            for r in range(nr):
+                row = [f"{tag}{r}_{j}" if (r + j) % 3 else f"v{r}_{j}" for j in range(nc)]   # some texts shared
+                row.insert(kpos, keys[r])
+                rows.append(row)
+            return dict(cols=list(names), rows=rows)
+
+        spec = dict(kind="table")
+        if with_title:
+            spec["title"] = _line(rng, side, pal, title)
+        spec["footnote"] = _line(rng, side, pal, note, table=note_table)
+        spec["footnote"]["text_convert"] = bool(side % 2)
+        if with_src:
+            spec["source"] = _line(rng, side, pal, src, table=src_table)
+        if with_hdr:
+            spec["page_header"] = _line(rng, side, pal, "hdr")
+        if feature in ("pageby", "subline", "groupby"):
+            nr = rng.randint(2, 3) if small else rng.randint(3, 4)
+            spec["df"] = keyed_frame(nr, 2 if nr <= 3 else rng.randint(2, 3))
+            b = _styled(rng, side, nc + 1, pal)
+            # the grouping column itself always differs from the other documents' in every resolved attribute
+            if feature == "pageby":
+                b["page_by"] = ["grp"]
+                if mode == "samepage":
+                    b["new_page"] = False
+                else:
+                    b["new_page"] = True
+                    b["pageby_row"] = "first_row"
+                b["pageby_header"] = pb_header
+                spec["page"] = dict(nrow=rng.randint(8, 12))
+                hn = nc
+            elif feature == "subline":
+                b["subline_by"] = ["grp"]
+                b["pageby_header"] = pb_header
+                spec["page"] = dict(nrow=rng.randint(9, 12))
+                hn = nc
+            else:
+                b["group_by"] = ["grp"]
+                spec["page"] = dict(nrow=rng.randint(5, 6))      # ≥ 2 pages: page-start rows get their value back
+                hn = nc + 1
+            spec["body"] = b
+            h = _styled(rng, side, hn, pal, "header")
+            h["text"] = htext[:hn]
+            spec["headers"] = [h]
+        elif feature == "multi":
+            spec["kind"] = "multi"
+            n1 = rng.randint(1, 2) if small else 2
+            n2 = rng.randint(1, 2)                    # one-row sections included
+            spec["df"] = [keyed_frame(n1, n1), keyed_frame(n2, n2)]
+            spec["body"] = [_styled(rng, side, nc + 1, pal), _styled(rng, side, nc + 1, pal)]
+            hs = []
+            for s in range(2):
+                h = _styled(rng, side, nc + 1, pal, "header")
+                h["text"] = [f"{'HK'[s]}{j}" for j in range(nc + 1)]
+                hs.append([h])
+            spec["headers"] = hs
+        elif feature == "figure":
+            spec["kind"] = "figure"
+            nf = 2
+            spec["figure"] = dict(files=[dict(name=f"fig{j}.png", hex=_png(3 + j + i, 2 + i, rng.randrange(256)))
+                                         for j in range(nf)],
+                                  fig_width=[rng.choice(_SIDE["fig_width"][side]) for _ in range(nf)],
+                                  fig_height=[rng.choice(_SIDE["fig_height"][side]) for _ in range(nf)],
+                                  fig_align=_SIDE["fig_align"][side][0])
+            for comp in ("footnote", "source"):
+                spec[comp]["as_table"] = False
+                for kk in ("border_top", "border_left", "text_background_color", "cell_height"):
+                    spec[comp].pop(kk, None)
+            spec["page"] = dict(page_title=rng.choice(["all", "first"]), page_footnote=rng.choice(["all", "last"]),
+                                page_source=rng.choice(["all", "last"]))
+            spec.pop("page_header", None)
+        else:
+            raise ValueError(feature)
+        specs.append(spec)
+    return specs
+
+
 # ------------------------------------------------------------------ running real code
 
 def _build_all(specs, wd):
@@ -270,12 +485,111 @@ def solo_fresh(spec) -> dict:
     return json.loads(p.stdout.decode())
 
 
+def cell_classes(specs) -> list:
+    """`_cell_classes` in a fresh interpreter (no encode has touched any default object yet)"""
+    env = dict(os.environ)
+    env["PYTHONPATH"] = os.pathsep.join([str(common.VERIF)] + ([env["PYTHONPATH"]] if env.get("PYTHONPATH") else []))
+    p = subprocess.run([sys.executable, "-m", "harness.props.c15", "--cells"], input=json.dumps(specs).encode(),
+                       capture_output=True, cwd=str(common.VERIF), env=env, timeout=300)
+    if p.returncode != 0:
+        raise common.MachineryError("cell-class subprocess failed: " + p.stderr.decode()[-400:])
+    return json.loads(p.stdout.decode())
+
+
+def _cell_classes(specs):
+    """Classify every `contextvars.ContextVar` of the rtflite package as a per-thread or a process-wide cell
+    (Model.Interleave: `CtxMode.Local` / `CtxMode.Global`), by what happens to it while `specs` are encoded on another
+    thread.  A variable is a per-thread cell only through `.set()`; its DEFAULT object is handed to every thread, so
+    a mutable default that an encode changes in place is one cell per process.  Must run before the process has
+    encoded anything.  → list of dict(var, where, default, mutable_default, mutated_by_encode, leaked_binding)"""
+    import contextvars
+    import copy
+    import threading
+
+    import rtflite  # noqa: F401
+
+    missing = object()
+    found, before, snap, after = {}, {}, {}, {}
+
+    def scan():
+        new = {}
+        for mname, mod in sorted(sys.modules.items()):
+            if not (mname == "rtflite" or mname.startswith("rtflite.")) or mod is None:
+                continue
+            holders = [(mname, vars(mod))]
+            holders += [(f"{mname}.{k}", vars(v)) for k, v in list(vars(mod).items())
+                        if isinstance(v, type) and getattr(v, "__module__", None) == mname]
+            for where, ns in holders:
+                for k, v in list(ns.items()):
+                    if isinstance(v, contextvars.ContextVar) and id(v) not in found:
+                        found[id(v)] = new[id(v)] = (f"{where}.{k}", v)
+        return new
+
+    def read(keys, into):
+        for key in keys:
+            try:
+                into[key] = found[key][1].get()
+            except LookupError:
+                into[key] = missing
+
+    def in_thread(fn, *a):
+        t = threading.Thread(target=fn, args=a)     # a new thread has an empty context: .get() gives the default
+        t.start()
+        t.join(240)
+
+    def snapshot(keys):
+        in_thread(read, keys, before)
+        for key in keys:
+            try:
+                c = copy.deepcopy(before[key])
+                snap[key] = (c is not before[key], c)        # deepcopy returns immutable atoms themselves
+            except Exception:  # noqa: BLE001
+                snap[key] = (True, None)
+
+    with tempfile.TemporaryDirectory(prefix="rtfv_c15c_") as wd, contextlib.redirect_stdout(io.StringIO()):
+        docs = _build_all(specs, wd)
+        snapshot(list(scan()))
+
+        def encode_one(d):
+            try:
+                d.rtf_encode()
+            except Exception:  # noqa: BLE001
+                pass
+
+        late = []
+        changed, leaked = {}, set()
+        for d in docs:                               # after every single encode: what does a NEW thread see?
+            in_thread(encode_one, d)
+            new = list(scan())                       # variables of modules imported during the encode
+            late += new
+            snapshot(new)
+            after.clear()
+            in_thread(read, list(found), after)
+            for key in found:
+                mutable, copy0 = snap[key]
+                if after[key] is not before[key]:
+                    leaked.add(key)
+                elif mutable and copy0 is not None and key not in changed and after[key] != copy0:
+                    changed[key] = repr(after[key])[:160]
+    out = []
+    for key, (name, var) in sorted(found.items(), key=lambda kv: kv[1][0]):
+        mutable, copy0 = snap[key]
+        mutable = bool(mutable and before[key] is not missing)
+        out.append(dict(var=var.name, where=name, default="<none>" if before[key] is missing else repr(copy0)[:80],
+                        mutable_default=mutable, mutated_by_encode=bool(mutable and key in changed),
+                        leaked_binding=key in leaked, seen_before_first_encode=key not in late,
+                        left_behind=changed.get(key)))
+    return out
+
+
 def _baseline_worker(task):
-    """task = ('fresh', spec) | ('traced', specs) | None (padding)"""
+    """task = ('fresh', spec) | ('traced', specs) | ('cells', specs) | None (padding)"""
     if task is None:
         return None
     if task[0] == "fresh":
         return solo_fresh(task[1])
+    if task[0] == "cells":
+        return cell_classes(task[1])
     from .. import sched
 
     specs = task[1]
@@ -286,8 +600,16 @@ def _baseline_worker(task):
             r = sched.run_scheduled([d.rtf_encode], [[0, None]])
             plain = d.rtf_encode()
             res = r["results"][0]
+            # the two observers of library calls (sys.settrace / sys.monitoring, see sched.py) must see the same
+            # switch points: same number of calls, shared accesses at the same call numbers
+            obs = {}
+            for mode in ("settrace", sched.default_mode()):
+                if mode not in obs:
+                    q = sched.run_scheduled([d.rtf_encode], [[0, None]], mode=mode)
+                    obs[mode] = [q["counts"][0], [[e[1], e[4]] for e in q["log"]]]
             out.append(dict(result=res, same_untraced=(res[0] == "ok" and res[1] == plain), calls=r["counts"][0],
-                            log=r["log"]))
+                            log=r["log"], observers_agree=len({json.dumps(v) for v in obs.values()}) == 1,
+                            observers={k: v[0] for k, v in obs.items()}))
     out.append(dict(wrappers={k: (v if isinstance(v, (bool, str)) else True) for k, v in sched._PATCHED.items()
                               if k != "lookup_code"}))
     return out
@@ -312,7 +634,7 @@ def run_one(specs, solo, segments, timeout=60.0) -> dict:
         docs = _build_all(specs, wd)
         t0 = time.time()
         try:
-            r = sched.run_scheduled([d.rtf_encode for d in docs], segments, timeout)
+            r = sched.run_scheduled([d.rtf_encode for d in docs], segments, timeout, lazy_trace=True)
         except sched.SchedulerTimeout as e:
             return dict(status="timeout", msg=str(e))
     same, diffs, errs = [], [], []
@@ -657,16 +979,30 @@ def prepare_sets(res, tier):
                  ("triple", ["table", "pageby", "figure"])]
     else:
         plan += [("triple", ["tsmall", "figure", "tsmall"])]
+    nold = len(plan)
+    # same-feature sets (documents that use the same feature with different settings, see gen_feature_set)
+    frng = sub_rng(res.seed, "c15featplan")
+    plan += [(f"same-{f}", [f + "*", f + "*"]) for f in FEATURES]
+    tf = frng.choice(FEATURES[:4])
+    plan += [("same-triple", [tf + "*"] * 3)]
     sets = {}
     tasks = []
     for k, (name, kinds) in enumerate(plan):
-        specs = gen_docset(res.seed, k, kinds)
+        if k < nold:
+            specs = gen_docset(res.seed, k, kinds)
+        else:
+            specs = gen_feature_set(res.seed, k - nold, kinds[0].rstrip("*"), n=len(kinds),
+                                    nc=2 if tier == "thorough" else 1)
         sets[name] = dict(specs=specs, kinds=kinds)
         tasks += [("fresh", s) for s in specs]
         tasks.append(("traced", specs))
+    cell_specs = [sp for name, _ in plan[nold:] for sp in sets[name]["specs"]]
+    ci = len(tasks)
+    tasks.append(("cells", cell_specs))
     while len(tasks) < 4:
         tasks.append(None)
     outs = common.pool_map(_baseline_worker, tasks, chunksize=1)
+    sets["__cells__"] = dict(classes=outs[ci], specs=cell_specs)
     it = iter(outs)
     for name, kinds in plan:
         st = sets[name]
@@ -678,6 +1014,11 @@ def prepare_sets(res, tier):
         st["solo"] = [f["rtf"] for f in fresh]
         st["wrappers"] = traced[-1]["wrappers"]
         st["traced"] = traced[:-1]
+        for i, t in enumerate(st["traced"]):
+            if not t.get("observers_agree", True) and os.environ.get("VERIF_SCHED_SETTRACE") != "1":
+                res.notes.append(f"sys.monitoring and sys.settrace saw different library calls for {name}[{i}] "
+                                 f"({t.get('observers')}); all schedules are run under sys.settrace")
+                os.environ["VERIF_SCHED_SETTRACE"] = "1"      # inherited by the schedule workers (forked later)
         st["calls"] = [t["calls"] for t in st["traced"]]
         st["gp"] = [guided_points(t["log"], t["calls"]) for t in st["traced"]]
         st["gp_before"] = [guided_points(t["log"], t["calls"], (-1,)) for t in st["traced"]]
@@ -733,6 +1074,10 @@ def run_sched(res, tier, n2t):
     t0 = time.time()
     plan, sets = prepare_sets(res, tier)
     res.extra["baseline_s"] = round(time.time() - t0, 2)
+    from .. import sched as _sched
+    res.extra["call_observer"] = _sched.default_mode()
+    res.extra["observers_agree_on_baselines"] = all(t.get("observers_agree", True) for name, _ in plan
+                                                    for t in sets[name]["traced"])
     for name, _ in plan:
         st = sets[name]
         w = st["wrappers"]
@@ -743,6 +1088,22 @@ def run_sched(res, tier, n2t):
                 res.fail(dict(level="sequential", set=name, thread=i, spec=st["specs"][i]),
                          "encoding a document after other documents in the same process differs from encoding it in "
                          "a fresh process (the no-preemption schedule)")
+    # cell classes: every ContextVar of the package must be the per-thread kind of cell the model assumes
+    cells = sets.pop("__cells__")
+    res.extra["contextvars"] = [{k: v for k, v in c.items() if k != "left_behind"} for c in cells["classes"]]
+    for c in cells["classes"]:
+        case = dict(level="cells", var=c["var"], where=c["where"], specs=cells["specs"])
+        res.case(dict(level="cells", var=c["var"], where=c["where"]), None)
+        res.count("cells:contextvar-" + ("mutable-default" if c["mutable_default"] else "immutable-default"))
+        res.corr_checked += 1
+        if c["mutated_by_encode"]:
+            res.disagree(case, f"ContextVar {c['var']!r} ({c['where']}) is not a per-thread cell: its default object "
+                               f"{c['default']} is mutable, every thread's .get() returns that one object, and an encode "
+                               f"on another thread changed it in place (left behind: {c['left_behind']}) — a "
+                               f"process-wide cell (Model.Interleave CtxMode.Global), for which C15 is refuted "
+                               f"(C15_shared_default_memo_interferes)")
+        elif c["leaked_binding"]:
+            res.notes.append(f"ContextVar {c['var']!r}: a new thread reads a different default object after an encode")
     rng = sub_rng(res.seed, "c15sched")
     tasks = []
     fam_counts = {}
@@ -751,21 +1112,28 @@ def run_sched(res, tier, n2t):
         calls, gp, n = st["calls"], st["gp"], len(kinds)
         fams = []
         if name == "pair-tables" or (tier == "thorough" and n == 2):
+            same = name.startswith("same-")
             fams += single_preemption(n, calls)
-            fams += guided2(calls, st["gp_before"], rng, None, "before-access2")     # exhaustive
-            fams += guided2(calls, gp, rng, 300 if tier == "quick" else 3000 if name == "pair-tables" else 1500)
-            fams += sampled(calls, gp, rng, 200 if tier == "quick" else 700, 2)
-            fams += sampled(calls, gp, rng, 200 if tier == "quick" else 700, 3)
-            fams += guided3(calls, gp, rng, 200 if tier == "quick" else 700)
+            fams += guided2(calls, st["gp_before"], rng, 1500 if same else None, "before-access2")  # else exhaustive
+            fams += guided2(calls, gp, rng, 300 if tier == "quick" else 3000 if name == "pair-tables" else
+                            500 if same else 1500)
+            fams += sampled(calls, gp, rng, 200 if tier == "quick" or same else 700, 2)
+            fams += sampled(calls, gp, rng, 200 if tier == "quick" or same else 700, 3)
+            fams += guided3(calls, gp, rng, 200 if tier == "quick" or same else 700)
         if name in ("pair-fonts", "pair-groupby") and tier == "quick":
             # the document that switches font sizes is parked at every library call boundary while the other one is
             # encoded from start to finish
             fams += [f for f in single_preemption(n, calls) if f[1][0][0] == 0]
+        if name.startswith("same-") and n == 2 and tier == "quick":
+            # both documents go through the same feature code with different settings: document 0 is parked at every
+            # library call boundary while the other one is encoded from start to finish
+            fams += [f for f in single_preemption(n, calls) if f[1][0][0] == 0]
         if n == 3:
             # single preemption of each of the three threads at the switch points next to its shared accesses
             fams += [f for f in single_preemption(n, calls) if f[1][0][1] in set(gp[f[1][0][0]])]
-            fams += three_thread(calls, gp, rng, 300 if tier == "quick" else 2000)
-            fams += sampled(calls, gp, rng, 150 if tier == "quick" else 1000, 3)
+            same3 = name.startswith("same-")
+            fams += three_thread(calls, gp, rng, (200 if same3 else 300) if tier == "quick" else 2000)
+            fams += sampled(calls, gp, rng, (100 if same3 else 150) if tier == "quick" else 1000, 3)
         for fam, segs in fams:
             tasks.append(dict(set=name, family=fam, segments=segs))
             fam_counts[f"{name}/{fam}"] = fam_counts.get(f"{name}/{fam}", 0) + 1
@@ -827,9 +1195,16 @@ def run_sched(res, tier, n2t):
     res.extra["schedules_total"] = len(tasks)
     res.extra["discriminating_schedules"] = ndisc
     res.extra["exhaustive_what"] = ("all single-preemption schedules (every library call boundary of the preempted "
-                                    "thread, every choice of preempted thread) and all two-preemption schedules "
-                                    "whose preemptions sit right before a shared-state access, of: "
-                                    + ", ".join(n for n, k in plan if n == "pair-tables" or tier == "thorough"))
+                                    "thread, every choice of preempted thread) of: "
+                                    + ", ".join(n for n, k in plan if n == "pair-tables" or
+                                                (tier == "thorough" and len(k) == 2))
+                                    + "; all two-preemption schedules whose preemptions sit right before a "
+                                      "shared-state access, of: "
+                                    + ", ".join(n for n, k in plan if n == "pair-tables" or
+                                                (tier == "thorough" and len(k) == 2 and not n.startswith("same-")))
+                                    + ("; all single-preemption schedules that park document 0 (every library call "
+                                       "boundary) of: " + ", ".join(n for n, k in plan if len(k) == 2 and
+                                                                    n != "pair-tables") if tier == "quick" else ""))
     if ndisc == 0:
         res.notes.append("no discriminating schedule was produced — the run would not have noticed the old defect")
         res.disagree(dict(level="meta"), "schedule generator produced no schedule on which the process-wide-cell model "
@@ -882,7 +1257,7 @@ def replay(payload) -> int:
         print("documents      :", case.get("kinds"), " schedule segments [thread, calls]:", case["segments"])
         for p in ob["parks"]:
             print(f"  thread {p[0]} parked before its library call #{p[1]}: {p[2]} ({p[3]})")
-        print("library calls  :", ob["counts"])
+        print("library calls observed until the last park:", ob["counts"])
         print("byte-equal to solo document per thread:", ob["same"])
         for x in ob["diffs"]:
             print("  ", x)
@@ -898,6 +1273,13 @@ def replay(payload) -> int:
         for _, why in tmp.failures:
             print("FAIL:", why[:600])
         bad = bool(tmp.failures)
+    elif level == "cells":
+        cl = [c for c in cell_classes(case["specs"]) if c["var"] == case.get("var")]
+        for c in cl:
+            print(c)
+        bad = any(c["mutated_by_encode"] for c in cl)
+        print("the variable is a process-wide cell (mutable default object changed in place by an encode on another "
+              "thread):", bad)
     elif level == "sequential":
         f = solo_fresh(case["spec"])
         print("fresh-process encode status:", f.get("status"))
@@ -941,3 +1323,5 @@ def _solo_main():
 if __name__ == "__main__":
     if "--solo" in sys.argv:
         _solo_main()
+    elif "--cells" in sys.argv:
+        print(json.dumps(_cell_classes(json.loads(sys.stdin.read()))))
